@@ -87,7 +87,13 @@ class C07(Prop):
         n = 150 if tier == "quick" else 2500
         cases = []
         for i in range(n):
-            c = B.gen_case(rng, B.CLASSES[i % len(B.CLASSES)])
+            cls = B.CLASSES[i % len(B.CLASSES)]
+            if i % 5 == 3 and cls != "QuantitativeDiscretizer":
+                # several categorical features sharing a vocabulary, each with rare modalities (default group)
+                c = B.gen_case(rng, cls, force={"kind": "cat", "cflavour": "rare", "nfeat": rng.choice([2, 3]),
+                                                "n": rng.choice([120, 200, 400])})
+            else:
+                c = B.gen_case(rng, cls)
             c["json"] = False
             c["ops"] = gen_ops(rng, len(c["y"]))
             c["with_dev"] = c["cls"].endswith("Carver") and rng.random() < 0.35
